@@ -1703,6 +1703,20 @@ impl Driver {
                 format!("after {}: weighted_size() = {}, but the held entries weigh {}", op.to_line(), post.weighted_size, wsum),
             );
         }
+        // C10: "the sum of the weigher over them": the weight an entry is held with is what the
+        // caller's weigher says about its current value (1 without a weigher), whatever the configuration
+        for e in &post.entries {
+            if let Some(l) = self.truth.cur(e.key) {
+                if l.vid == e.vid && l.weight != e.weight {
+                    self.violate(
+                        &["C10", "C17"],
+                        "counters:held-weight-is-not-the-weigher's",
+                        format!("after {}: key {} (value {}) is held with weight {}, the weigher says {} (weigher configured: {}, max_capacity {:?})", op.to_line(), e.key, e.vid, e.weight, l.weight, self.cfg.weigher, self.cfg.cap),
+                    );
+                    break;
+                }
+            }
+        }
         // C10 second sentence / C11: what is held but can no longer be observed
         let mut hidden_expired = 0u64;
         let mut expired_held: Vec<(u32, u64, Liveness)> = Vec::new();
